@@ -148,6 +148,9 @@ func (c Commands) MarshalBinary() ([]byte, error) {
 func (c *Commands) UnmarshalBinary(uplink bool, data []byte) error {
 	var i int
 
+	// reset the commands (in case c has been used before)
+	*c = nil
+
 	for i < len(data) {
 		var cmd Command
 		if err := cmd.UnmarshalBinary(uplink, data[i:]); err != nil {
@@ -300,6 +303,10 @@ func (p *McGroupStatusAnsPayload) UnmarshalBinary(data []byte) error {
 	if len(data) == 0 {
 		return errors.New("lorawan/applayer/multicastsetup: at least 1 byte is expected")
 	}
+
+	// reset the mask and items (in case p has been used before)
+	p.Status.AnsGroupMask = [4]bool{}
+	p.Items = nil
 
 	var ansGroupMaskCount int
 	for i := range p.Status.AnsGroupMask {
@@ -662,6 +669,7 @@ func (p *McClassCSessionAnsPayload) UnmarshalBinary(data []byte) error {
 	p.StatusAndMcGroupID.DRError = data[0]&0x04 != 0
 	p.StatusAndMcGroupID.FreqError = data[0]&0x08 != 0
 	p.StatusAndMcGroupID.McGroupUndefined = data[0]&0x10 != 0
+	p.TimeToStart = nil
 
 	if !p.StatusAndMcGroupID.hasError() {
 		if len(data) < p.Size() {
@@ -830,6 +838,7 @@ func (p *McClassBSessionAnsPayload) UnmarshalBinary(data []byte) error {
 	p.StatusAndMcGroupID.DRError = data[0]&0x04 != 0
 	p.StatusAndMcGroupID.FreqError = data[0]&0x08 != 0
 	p.StatusAndMcGroupID.McGroupUndefined = data[0]&0x10 != 0
+	p.TimeToStart = nil
 
 	if !p.StatusAndMcGroupID.hasError() {
 		if len(data) < p.Size() {
